@@ -469,6 +469,22 @@ impl Engine for C15 {
                         } else {
                             run_eval(&cur, &name, &src, inject, &mut cycles)
                         }
+                    } else if interleaving_possible {
+                        // (typechecking an expression evaluates the modules it imports)
+                        let name = format!("e{}", i);
+                        match std::panic::catch_unwind(std::panic::AssertUnwindSafe(|| run_typecheck(&cur, &name, &src))) {
+                            Ok(r) => (r, false),
+                            Err(p) => {
+                                let msg = p.downcast_ref::<String>().cloned().or_else(|| p.downcast_ref::<&str>().map(|s| s.to_string())).unwrap_or_default();
+                                if HOOK_YIELDS.load(Ordering::SeqCst) > 0 && !msg.contains("forget") {
+                                    return Err(Violation::new(
+                                        "suspended-import-interleaving",
+                                        format!("a module body was suspended while the source importing it has another import: the other module body ran on the same thread's stack, then: panic `{}`", clip(&msg)),
+                                    ));
+                                }
+                                std::panic::resume_unwind(p);
+                            }
+                        }
                     } else {
                         (run_typecheck(&cur, &format!("e{}", i), &src), false)
                     };
